@@ -9,7 +9,9 @@ def run(ctx):
                 "is one history; non-trivial = a reference was delivered while a proxy for the same object was held; plus the "
                 "bound-method witness (D15), three- and four-Tub gift scenarios, all interleavings (depth 6 / 8) around a decref in "
                 "flight, and a reconnection family (two successive connections between the same Tubs, stale proxies sent home / "
-                "called / used after the second connection exists)")
+                "called / used after the second connection exists); several gifts (from one or two owners) inside one list / tuple / "
+                "set / dict / argument list / nested container, the carrying message cut at every byte position (quick: residue "
+                "classes) and the introductions completing A-first / D-first; AsyncAND on every fired/pending mixture up to 4 inputs")
     ctx.assumptions = [
         "CPython collects a proxy on the last `del` (+gc.collect()): DropProxy is an explicit action; modelled, not verified",
         "FIFO byte streams both ways, one queue item per top-level banana object; eventual-queue FIFO order relied upon",
@@ -26,6 +28,7 @@ def run(ctx):
     results = R.check_refs(ctx, "C08", "redelivery-while-held")
     from harness import c08_impl
     c08_impl.gifts(ctx)
+    c08_impl.multi_gifts(ctx)
     c08_impl.reconnect(ctx, "C08")
     model_ok = ok
     if not ok:
@@ -33,6 +36,7 @@ def run(ctx):
     if model_ok:
         R.correspond(ctx, "C08", results)
         c08_impl.wire_correspondence(ctx)
+    c08_impl.asyncand_check(ctx, model_ok)
     # a failing input that is a listed known finding does not explain a broken proof
     known = common.load_known()
     fresh = [f for f in ctx.failures[before:] if not (f["has_input"] and known.get(("C08", f["sig"]), {}).get("status") == "known")]
